@@ -453,10 +453,159 @@ fn run_cmd(text: &str, args: &Sexp, wit: &Sexp, dbg: bool, pruned: bool) -> Resu
     Ok(run_program(&compiled, wv, pruned))
 }
 
+fn hex(bytes: &[u8]) -> String {
+    bytes.iter().map(|b| format!("{:02x}", b)).collect()
+}
+
+/// commit(): CMR and encoding
+fn commit_cmd(text: &str, args: &Sexp, dbg: bool) -> Result<String, String> {
+    let template = match TemplateProgram::new(text) {
+        Ok(t) => t,
+        Err(e) => return Ok(format!("(rej {})", quote(&first_line(&e)))),
+    };
+    let arguments = Arguments::from(name_values(args)?);
+    match template.instantiate(arguments, dbg) {
+        Ok(c) => {
+            let commit = c.commit();
+            Ok(format!("(ok {} {})", commit.cmr(), hex(&commit.encode_to_vec())))
+        }
+        Err(e) => Ok(format!("(cerr {})", quote(&first_line(&e)))),
+    }
+}
+
+/// parameters() of a template
+fn params_cmd(text: &str) -> Result<String, String> {
+    match TemplateProgram::new(text) {
+        Ok(t) => Ok(Sexp::tagged("ok", sorted_types(t.parameters().iter())).to_string()),
+        Err(e) => Ok(format!("(rej {})", quote(&first_line(&e)))),
+    }
+}
+
+/// every AssertL hidden CMR of the debug build, looked up in debug_symbols()
+fn dbgsyms_cmd(text: &str, args: &Sexp) -> Result<String, String> {
+    use simplicity::dag::{DagLike, InternalSharing};
+    let template = match TemplateProgram::new(text) {
+        Ok(t) => t,
+        Err(e) => return Ok(format!("(rej {})", quote(&first_line(&e)))),
+    };
+    let arguments = Arguments::from(name_values(args)?);
+    let compiled = match template.instantiate(arguments, true) {
+        Ok(c) => c,
+        Err(e) => return Ok(format!("(cerr {})", quote(&first_line(&e)))),
+    };
+    let commit = compiled.commit();
+    let fail_zero = Cmr::fail(FailEntropy::ZERO);
+    let mut seen: Vec<Cmr> = vec![];
+    let mut out = vec![];
+    for item in commit.as_ref().post_order_iter::<InternalSharing>() {
+        if let Inner::AssertL(_, cmr) = item.node.inner() {
+            if *cmr == fail_zero || seen.contains(cmr) {
+                continue;
+            }
+            seen.push(*cmr);
+            match compiled.debug_symbols().get(cmr) {
+                Some(call) => {
+                    use simfony::debug::TrackedCallName as T;
+                    let kind = match call.name() {
+                        T::Assert => "assert".to_string(),
+                        T::Panic => "panic".to_string(),
+                        T::Jet => "jet".to_string(),
+                        T::UnwrapLeft(t) => format!("unwrap_left:{}", t),
+                        T::UnwrapRight(t) => format!("unwrap_right:{}", t),
+                        T::Unwrap => "unwrap".to_string(),
+                        T::Debug(t) => format!("dbg:{}", t),
+                    };
+                    out.push(Sexp::list(vec![
+                        Sexp::atom(format!("{}", cmr)),
+                        Sexp::atom(quote(call.text())),
+                        Sexp::atom(quote(&kind)),
+                    ]));
+                }
+                None => out.push(Sexp::list(vec![Sexp::atom(format!("{}", cmr)), Sexp::atom("UNRESOLVED")])),
+            }
+        }
+    }
+    Ok(Sexp::tagged("ok", out).to_string())
+}
+
+/// tracked-kind calls of main's inlined typed AST, with their spans: (kind sl sc el ec)
+fn calls_cmd(text: &str) -> Result<String, String> {
+    use simfony::error::Span;
+    fn walk(e: &ast::Expression, out: &mut Vec<Sexp>) {
+        match e.inner() {
+            ast::ExpressionInner::Single(s) => walk_single(s, out),
+            ast::ExpressionInner::Block(stmts, last) => {
+                for st in stmts.iter() {
+                    match st {
+                        ast::Statement::Assignment(a) => walk(a.expression(), out),
+                        ast::Statement::Expression(x) => walk(x, out),
+                    }
+                }
+                if let Some(x) = last {
+                    walk(x, out);
+                }
+            }
+        }
+    }
+    fn walk_single(s: &ast::SingleExpression, out: &mut Vec<Sexp>) {
+        use ast::SingleExpressionInner as S;
+        match s.inner() {
+            S::Constant(_) | S::Witness(_) | S::Parameter(_) | S::Variable(_) | S::Option(None) => {}
+            S::Expression(e) | S::Either(Either::Left(e)) | S::Either(Either::Right(e)) | S::Option(Some(e)) => walk(e, out),
+            S::Tuple(es) | S::Array(es) | S::List(es) => es.iter().for_each(|e| walk(e, out)),
+            S::Match(m) => {
+                walk(m.scrutinee(), out);
+                walk(m.left().expression(), out);
+                walk(m.right().expression(), out);
+            }
+            S::Call(c) => {
+                use ast::CallName as C;
+                let kind = match c.name() {
+                    C::Jet(_) => Some("jet"),
+                    C::UnwrapLeft(_) => Some("unwrap_left"),
+                    C::UnwrapRight(_) => Some("unwrap_right"),
+                    C::Unwrap => Some("unwrap"),
+                    C::Assert => Some("assert"),
+                    C::Panic => Some("panic"),
+                    C::Debug => Some("dbg"),
+                    _ => None,
+                };
+                if let Some(k) = kind {
+                    let sp: &Span = c.as_ref();
+                    out.push(Sexp::list(vec![
+                        Sexp::atom(k),
+                        Sexp::num(sp.start.line.get()),
+                        Sexp::num(sp.start.col.get()),
+                        Sexp::num(sp.end.line.get()),
+                        Sexp::num(sp.end.col.get()),
+                    ]));
+                }
+                c.args().iter().for_each(|e| walk(e, out));
+                match c.name() {
+                    C::Custom(f) | C::Fold(f, _) | C::ForWhile(f, _) => walk(f.body(), out),
+                    _ => {}
+                }
+            }
+        }
+    }
+    match analyze_text(text) {
+        Err(e) => Ok(format!("(rej {})", quote(&first_line(&e)))),
+        Ok(prog) => {
+            let mut out = vec![];
+            walk(prog.main(), &mut out);
+            Ok(Sexp::tagged("ok", out).to_string())
+        }
+    }
+}
+
 pub fn handle(line: &str) -> Result<String, String> {
     let s = parse_sexp(line)?;
     let (tag, a) = s.tag()?;
     match (tag, a.len()) {
+        ("commit", 3) => commit_cmd(a[0].as_atom()?, &a[1], a[2].as_usize()? != 0),
+        ("params", 1) => params_cmd(a[0].as_atom()?),
+        ("dbgsyms", 2) => dbgsyms_cmd(a[0].as_atom()?, &a[1]),
+        ("calls", 1) => calls_cmd(a[0].as_atom()?),
         ("ast", 1) => Ok(ast_cmd(a[0].as_atom()?)),
         ("term", 3) => term_cmd(a[0].as_atom()?, &a[1], a[2].as_usize()? != 0),
         ("run", 4) => run_cmd(a[0].as_atom()?, &a[1], &a[2], a[3].as_usize()? != 0, false),
